@@ -235,7 +235,7 @@ theorem ni_setExports {s : AggState} (hI : NI W types S s) (he : S e) {ti : Inte
   have hTeq := setExports_types_eq s e E' ti hti
   have hlen : (setExports s e E').agg.types.interfaces.length = s.agg.types.interfaces.length := by
     rw [hTeq]; simp [listSet_length]
-  refine ⟨hI.ainv.of_same hfr.ext (by rw [hTeq]) rfl rfl, ?_, ?_, ?_⟩
+  refine ⟨hI.ainv.of_same hfr.ext (by rw [hTeq]) rfl rfl, ?_, ?_, ?_, hI.ish⟩
   · intro j itf hj x hx
     by_cases hje : j = e
     · subst hje
@@ -293,7 +293,7 @@ theorem nstate_append {s0 s2 : AggState} {F0 : Forest} (hT : NState W types S e 
 
 /-- weakening the set of mutable interfaces -/
 theorem NI.weaken {S' : Nat → Prop} {s : AggState} (h : NI W types S' s) (hS : ∀ j, S j → S' j) : NI W types S s := by
-  refine ⟨h.ainv, ?_, fun j hj => h.sb j (hS j hj), ?_⟩
+  refine ⟨h.ainv, ?_, fun j hj => h.sb j (hS j hj), ?_, h.ish⟩
   · intro j itf hj x hx
     rcases h.iwf j itf hj x hx with h1 | ⟨t, h1, h2, h3⟩
     · exact .inl h1
@@ -324,7 +324,24 @@ theorem nstate_keep {s0 : AggState} {F0 : Forest} (hT : NState W types S e s0 F0
   · have hk : isEqK tf = true := eqKind_unfoldLeaf lk hts
     rw [meet_eqK tf tf hk]; simp
   · rw [setF_self F0 n tf hFn]
-    refine ⟨⟨hA, hT.ni.iwf, hT.ni.sb, ?_⟩, hT.nested, hT.mutE, ⟨ti, hti, m, hm⟩, hT.nd⟩
+    have hkey : ∀ i ty, alGet (keepState s0 c' (GTy.mk' types sk.ty) tk.ty).agg.remapped (GTy.mk' types (.interface i)) = some ty →
+        alGet s0.agg.remapped (GTy.mk' types (.interface i)) = some ty := by
+      intro i ty hg
+      simp only [keepState, alGet_alInsert] at hg
+      split at hg
+      · rename_i he
+        have := eq_of_beq he
+        cases sk with
+        | func f => simp [GTy.mk', ItemKind.ty] at this
+        | value v => simp [GTy.mk', ItemKind.ty] at this
+        | type ty =>
+          cases ty with
+          | func f => simp [GTy.mk', ItemKind.ty] at this
+          | value v => simp [GTy.mk', ItemKind.ty] at this
+          | _ => cases lk
+        | _ => cases lk
+      · exact hg
+    refine ⟨⟨hA, hT.ni.iwf, hT.ni.sb, ?_, fun i ty hg => hT.ni.ish i ty (hkey i ty hg)⟩, hT.nested, hT.mutE, ⟨ti, hti, m, hm⟩, hT.nd⟩
     intro i i' hg
     apply hT.ni.ik i i'
     simp only [keepState, alGet_alInsert] at hg
@@ -415,7 +432,7 @@ theorem nstate_nested {fuel : Nat} (hIH : MergeSpec W types fuel) {s0 s2 : AggSt
       · exact h2 hc
       · exact absurd hc (Nat.ne_of_lt h3)
   have hTP : NState W types S' L (pushIface s0 copy) Ft := by
-    refine ⟨⟨hT.ni.ainv.of_same hextP rfl rfl rfl, ?_, ?_, ?_⟩, hT.nested, .inr rfl, ⟨copy, by simp [pushIface, L], m', ?_⟩, hFtnd⟩
+    refine ⟨⟨hT.ni.ainv.of_same hextP rfl rfl rfl, ?_, ?_, ?_, hT.ni.ish⟩, hT.nested, .inr rfl, ⟨copy, by simp [pushIface, L], m', ?_⟩, hFtnd⟩
     · intro j itf hj x hx
       rcases Nat.lt_or_ge j L with hlt | hge
       · have : s0.agg.types.interfaces[j]? = some itf := by
